@@ -172,6 +172,38 @@ func genNewCol(t *rapid.T, name string, n int, wide bool) newCol {
 
 func TestC08New(t *testing.T) {
 	rapid.Check(t, func(t *rapid.T) {
+		// the empty column map: an empty frame - unless the configuration names columns, which then are unknown
+		if hx.Rarely(t, 40, "emptymap") {
+			var data map[string]interface{}
+			if rapid.Bool().Draw(t, "nonnilmap") {
+				data = map[string]interface{}{}
+			}
+			var fns []newqf.ConfigFunc
+			what := rapid.SampledFrom([]string{"none", "order", "enums", "both", "empty-options"}).Draw(t, "emptymapconf")
+			switch what {
+			case "order":
+				fns = append(fns, newqf.ColumnOrder("a"))
+			case "enums":
+				fns = append(fns, newqf.Enums(map[string][]string{"a": {"x"}}))
+			case "both":
+				fns = append(fns, newqf.ColumnOrder("a", "b"), newqf.Enums(map[string][]string{"a": nil}))
+			case "empty-options":
+				fns = append(fns, newqf.ColumnOrder(), newqf.Enums(map[string][]string{}))
+			}
+			var qf qframe.QFrame
+			if perr := hx.Safely(func() { qf = qframe.New(data, fns...) }); perr != nil {
+				t.Fatalf("New(empty map, %s) panicked: %v", what, perr)
+			}
+			mustReject := what == "order" || what == "enums" || what == "both"
+			if mustReject && qf.Err == nil {
+				t.Fatalf("New of an empty column map accepted a configuration (%s) naming columns that do not exist", what)
+			}
+			if !mustReject && (qf.Err != nil || qf.Len() != 0 || len(qf.ColumnNames()) != 0) {
+				t.Fatalf("New of an empty column map (%s): err %v, %d rows, columns %q", what, qf.Err, qf.Len(), qf.ColumnNames())
+			}
+			evC08New.Case(mustReject, func() string { return "empty column map, configuration " + what }, "empty-map")
+			return
+		}
 		n := rapid.OneOf(rapid.IntRange(0, 3), rapid.IntRange(0, 12), rapid.IntRange(13, 40)).Draw(t, "n")
 		ncols := rapid.IntRange(1, 5).Draw(t, "ncols")
 		names := rapid.Permutation(legalNames).Draw(t, "names")[:ncols]
